@@ -589,6 +589,11 @@ func genValid(w *world, r *rng.R, size int) *gDoc {
 			op.Set = g.set(root, nil, false)
 		}
 	}
+	// now and then: a fragment that uses variables, shared (directly and through another fragment) by
+	// several operations, each of which declares the variables
+	if r.Chance(1, 4) {
+		g.shareVariables()
+	}
 	// definition order: shuffle fragments among operations now and then
 	if r.Chance(1, 3) {
 		var order []int
@@ -601,4 +606,52 @@ func genValid(w *world, r *rng.R, size int) *gDoc {
 		g.doc.Order = order
 	}
 	return g.doc
+}
+
+// shareVariables adds  fragment SV on Query {sv: arg(x: $sv) ...SW}  fragment SW on Query {sw: arg(y: $sw)}
+// and spreads SV in at least two query operations that declare $sv and $sw (an operation of another
+// root type, or the shorthand form, cannot take part). It returns the operations that take part.
+func (g *gen) shareVariables() []*gOp {
+	d, q := g.doc, g.w.S.QueryType()
+	if _, ok := fieldsOf(q)["arg"]; !ok {
+		return nil
+	}
+	for _, f := range d.Frags {
+		if f.Name == "SV" {
+			return nil
+		}
+	}
+	var part []*gOp
+	for _, op := range d.Ops {
+		if op.Kind == "" {
+			op.Kind = "query"
+		}
+		if op.Kind == "query" {
+			part = append(part, op)
+		}
+	}
+	for i := 0; len(part) < 2 || (len(part) < 3 && g.r.Chance(1, 3)); i++ {
+		op := &gOp{Kind: "query", Name: fmt.Sprintf("Shared%d", i), Set: &gSet{Parent: q}}
+		d.Ops = append(d.Ops, op)
+		part = append(part, op)
+	}
+	for i, op := range d.Ops {
+		if op.Name == "" { // more than one operation now: all need names
+			op.Name = fmt.Sprintf("Named%d", i)
+		}
+	}
+	for _, op := range part {
+		op.Vars = append(op.Vars, &gVar{Name: "sv", Type: "Int", T: graphql.IntType}, &gVar{Name: "sw", Type: rng.Pick(g.r, []string{"Int", "Int!"}), T: graphql.IntType})
+		op.Set.Sels = append(op.Set.Sels, &gSel{Kind: kSpread, Name: "SV"})
+	}
+	arg := fieldsOf(q)["arg"]
+	sw := &gFrag{Name: "SW", Cond: "Query", CondT: q, Done: true, Set: &gSet{Parent: q, Sels: []*gSel{
+		{Kind: kField, Alias: "sw", Name: "arg", Def: arg, Args: []gArg{{Name: "y", Val: "$sw", Type: graphql.IntType}}}}}}
+	sv := &gFrag{Name: "SV", Cond: "Query", CondT: q, Done: true, Set: &gSet{Parent: q, Sels: []*gSel{
+		{Kind: kField, Alias: "sv", Name: "arg", Def: arg, Args: []gArg{{Name: "x", Val: "$sv", Type: graphql.IntType}}},
+		{Kind: kSpread, Name: "SW"}}}}
+	sw.Set.InFrag, sv.Set.InFrag = sw, sv
+	d.Frags = append(d.Frags, sv, sw)
+	d.Order = nil
+	return part
 }
